@@ -5,7 +5,7 @@ from sfa.rules import reshaperules
 from sfa.rules import table
 
 LEVEL_TEXT = (
-    'Static decision of a structural clause of C20: join_inner/left/right/outer pass the like-named Join member and forward every own parameter by name; _join handles every member of Join and raises otherwise; its LEFT and RIGHT index branches are mirror images (left<->right, PairLeft<->PairRight, tuple order). Frame.pivot applies its unique-value index positionally only on paths on which the rows were brought into that index\'s order (reindex to its flat form / concatenation on it / equality test), decided per path on the symbolic store. Per path of set_index / set_index_hierarchy / unset_index: the new index is built from the addressed column(s) of self\'s own blocks in row order, drop removes the same positional key from data and labels, the hierarchy reordering applies one permutation to index and rows, unset_index puts index values and index names in front of blocks and column labels, the name is kept. Option forwarding: in every reshaping / relational interface each call to a resolved callee that accepts a parameter named like one of the function\'s own parameters passes it on (confirmed exceptions listed in sfa/rules/forwardrules.py). Not decided: the aggregation itself, pivot_stack/unstack and join matching, which are relational computations over values.')
+    'Static decision of a structural clause of C20: join_inner/left/right/outer pass the like-named Join member and forward every own parameter by name; _join handles every member of Join and raises otherwise; its LEFT and RIGHT index branches are mirror images (left<->right, PairLeft<->PairRight, tuple order). Frame.pivot applies its unique-value index positionally only on paths on which the rows were brought into that index\'s order (reindex to its flat form / concatenation on it / equality test), decided per path on the symbolic store. Per path of set_index / set_index_hierarchy / unset_index: the new index is built from the addressed column(s) of self\'s own blocks in row order, drop removes the same positional key from data and labels, the hierarchy reordering applies one permutation to index and rows, unset_index puts index values and index names in front of blocks and column labels, the name is kept. Option forwarding: in every reshaping / relational interface each call to a resolved callee that accepts a parameter named like one of the function\'s own parameters passes it on (confirmed exceptions listed in sfa/rules/forwardrules.py). relabel_shift_out reads the labels of the moved levels by iterating the caller\'s depth_level in the order in which `_extract(column_key=depth_level)` delivers the arrays, and puts both in front. Not decided: the aggregation itself, pivot_stack/unstack and join matching, which are relational computations over values.')
 
 CLAIM = dict(
     text=LEVEL_TEXT,
@@ -18,4 +18,5 @@ def run(ctx: Ctx) -> None:
     table.t8_join(ctx)
     reshaperules.pivot_positional_relabel(ctx)
     reshaperules.set_index_pairs(ctx)
+    reshaperules.relabel_shift_pairs(ctx)
     forwardrules.forwarding(ctx, modules=None, prefixes=('pivot', 'join', 'set_index', 'unset_index', 'relabel_shift', 'rehierarch', '_join', 'relabel_level'), suffix='reshape', floor=55, what='reshaping / relational interface')
